@@ -241,8 +241,8 @@ impl Prop for C12 {
         format!(
             "every key history of length <= L (L=4 quick, 5 thorough) over a {}-symbol alphabet of the synthetic layout with one representative of every \
              character class the rules distinguish (incl. multi-code-point values), under all 16 settings of auto-vowel/auto-chandra/traditional/old-reph, \
-             every step judged against the executable rule model; every distinct value of the layout file (about 190, incl. every sign, vowel, consonant and mark of the Bengali block) after every prefix of length <= 1 (quick) / 2 (thorough) over that alphabet; each history is followed by a backspace chain down to empty; plus random histories of \
-             length 4-7 and 10-30 with 20% backspaces. distinct_nontrivial = distinct (text before, key value, options) triples in which a non-append rule fired and was compared.",
+             every step judged against the executable rule model; every distinct value of the layout file (about 190, incl. every sign, vowel, consonant and mark of the Bengali block) after every prefix of length <= 1 (quick) / 2 (thorough) over that alphabet, and directly after every other value of the layout file (so that every mark, digit and letter is also the last character of the text); each history is followed by a backspace chain down to empty; plus random histories of \
+             length 4-7 and 10-30 with 20% backspaces, three quarters of them with options the statement does not mention switched on (ANSI, smart quotes, English, number pad, phonetic suggestions). distinct_nontrivial = distinct (text before, key value, options) triples in which a non-append rule fired and was compared.",
             ALPHABET.len()
         )
     }
